@@ -127,16 +127,21 @@ def _no_null_values(data: MutableMapping[str, Any]) -> None:
         if val is None:
             raise ValueError(f"{key} must have a non-null value")
 
+    def assert_no_nulls_in_list(k, v):
+        for e in v:
+            if isinstance(e, dict):
+                assert_no_nulls(e)
+            elif isinstance(e, list):
+                assert_no_nulls_in_list(k, e)
+            else:
+                check_if_None(k, e)
+
     def assert_no_nulls(d):
         for k, v in d.items():
             if isinstance(v, dict):
                 assert_no_nulls(v)
             elif isinstance(v, list):
-                for e in v:
-                    if isinstance(e, dict):
-                        assert_no_nulls(e)
-                    else:
-                        check_if_None(k, e)
+                assert_no_nulls_in_list(k, v)
             else:
                 check_if_None(k, v)
 
